@@ -4,7 +4,8 @@
 //! `rusty_basic::interpreter::verif::run_in_memory` (printed value).
 //! Property oracle: a textbook precedence climber over the token list, written here in Rust
 //! (independent of both the parser and the Lean model), and plain integer arithmetic for literals.
-//! Model: `RbModel.Expr.parseChain` / `climb` / `decLit` / `hexLit` / `octLit` / `negLit` through the driver.
+//! Model: `RbModel.Expr.parseChain` / `climb` / `decLit` / `hexLit` / `octLit` / `negLit` and
+//! `RbModel.FloatLit.fracLit` / `negFracLit` through the driver.
 
 use rb_harness::driver::ask;
 use rb_harness::json::J;
@@ -519,6 +520,199 @@ fn lit_cases(n: u128, zeros: usize, neg: bool, lower: bool, out: &mut Vec<LitCas
     }
 }
 
+
+// ---------------------------------------------------------------------------------------------
+// literals with a fraction
+
+struct FracCase {
+    neg: bool,
+    int_digits: String,
+    frac_digits: String,
+    pound: bool,
+    class: &'static str,
+}
+
+impl FracCase {
+    fn text(&self) -> String {
+        format!("{}{}.{}{}", if self.neg { "-" } else { "" }, self.int_digits, self.frac_digits, if self.pound { "#" } else { "" })
+    }
+    fn request(&self) -> String {
+        let list = |d: &str| format!("({})", d.chars().map(|c| c.to_string()).collect::<Vec<_>>().join(" "));
+        format!(
+            "(expr.frac {} {} {} {})",
+            if self.neg { "t" } else { "f" },
+            list(&self.int_digits),
+            list(&self.frac_digits),
+            if self.pound { "t" } else { "f" }
+        )
+    }
+}
+
+/// `sign m e` with the magnitude `m * 2^e`, `m` odd (`0 0` for zero), or `sign inf` / `sign nan`:
+/// the exact value of the IEEE bit pattern (`frac_bits` = 23 or 52).
+fn float_bits_string(bits: u64, frac_bits: u32, exp_bits: u32) -> String {
+    let sign = (bits >> (frac_bits + exp_bits)) & 1;
+    let exp = ((bits >> frac_bits) & ((1u64 << exp_bits) - 1)) as i64;
+    let frac = bits & ((1u64 << frac_bits) - 1);
+    let bias = (1i64 << (exp_bits - 1)) - 1;
+    if exp == (1i64 << exp_bits) - 1 {
+        return format!("{} {}", sign, if frac == 0 { "inf" } else { "nan" });
+    }
+    let (mut m, mut e) = if exp == 0 { (frac, 1 - bias - frac_bits as i64) } else { (frac | (1u64 << frac_bits), exp - bias - frac_bits as i64) };
+    if m == 0 {
+        return format!("{} 0 0", sign);
+    }
+    while m % 2 == 0 {
+        m /= 2;
+        e += 1;
+    }
+    format!("{} {} {}", sign, m, e)
+}
+
+fn f32_string(f: f32) -> String {
+    format!("(single {})", float_bits_string(f.to_bits() as u64, 23, 8))
+}
+
+fn f64_string(f: f64) -> String {
+    format!("(double {})", float_bits_string(f.to_bits(), 52, 11))
+}
+
+fn frac_lit_string(e: &Result<Expression, String>) -> String {
+    match e {
+        Ok(Expression::SingleLiteral(f)) => f32_string(*f),
+        Ok(Expression::DoubleLiteral(f)) => f64_string(*f),
+        Ok(other) => format!("not-a-float-literal {:?}", other),
+        Err(e) => format!("error {}", e),
+    }
+}
+
+/// The decimal expansion of `n * 2^q` as (integer digits, fraction digits), exact; `n * 5^-q` must fit u128
+/// for negative `q`, `n << q` for positive `q`.
+fn dyadic_decimal(n: u128, q: i32) -> Option<(String, String)> {
+    if q >= 0 {
+        if n.leading_zeros() <= q as u32 {
+            return None;
+        }
+        Some(((n << q).to_string(), "0".to_owned()))
+    } else {
+        let k = (-q) as u32;
+        let scaled = n.checked_mul(5u128.checked_pow(k)?)?;
+        let s = format!("{:0>width$}", scaled.to_string(), width = k as usize + 1);
+        let (a, b) = s.split_at(s.len() - k as usize);
+        Some((a.to_owned(), b.to_owned()))
+    }
+}
+
+fn frac_cases(rng: &mut Rng, thorough: bool) -> Vec<FracCase> {
+    let mut out: Vec<FracCase> = vec![];
+    // suffix and sign rotate; `both_types` asks the same digits as SINGLE and as DOUBLE
+    fn push(out: &mut Vec<FracCase>, rng: &mut Rng, int_digits: String, frac_digits: String, class: &'static str, both_types: bool) {
+        let neg = rng.chance(1, 3);
+        let pound = rng.chance(1, 2);
+        out.push(FracCase { neg, int_digits: int_digits.clone(), frac_digits: frac_digits.clone(), pound, class });
+        if both_types {
+            out.push(FracCase { neg: !neg, int_digits, frac_digits, pound: !pound, class });
+        }
+    }
+    // (1) random digit strings of 1..25 digits, the point at every position (also in front of the first digit)
+    let n_strings = if thorough { 12_000 } else { 1_200 };
+    for i in 0..n_strings {
+        let len = rng.range(1, 25) as usize;
+        let mut ds: Vec<u8> = (0..len).map(|_| b'0' + rng.below(10) as u8).collect();
+        // leading / trailing zeros on a part of the strings
+        if i % 4 == 1 {
+            let z = rng.range(1, 3) as usize;
+            for d in ds.iter_mut().take(z.min(len)) {
+                *d = b'0';
+            }
+        }
+        if i % 4 == 2 {
+            let z = rng.range(1, 3) as usize;
+            for d in ds.iter_mut().rev().take(z.min(len)) {
+                *d = b'0';
+            }
+        }
+        let s = String::from_utf8(ds).unwrap();
+        for p in 0..len {
+            push(&mut out, rng, s[..p].to_owned(), s[p..].to_owned(), "fraction.random", p % 5 == 0);
+        }
+    }
+    // (2) halfway cases: the decimal exactly between two adjacent floats, and the decimals one unit of a
+    // further digit (and of a much further digit: inside half an ulp of the wider format) above and below it
+    let n_half = if thorough { 20_000 } else { 2_500 };
+    for i in 0..n_half {
+        let double = i % 3 == 2;
+        let (m, q): (u128, i32) = if double {
+            ((1u128 << 52) | (rng.next_u64() as u128 & ((1 << 52) - 1)), rng.range(-27, 60) as i32)
+        } else {
+            ((1u128 << 23) | (rng.next_u64() as u128 & ((1 << 23) - 1)), rng.range(-39, 90) as i32)
+        };
+        // the midpoint between m * 2^q and (m + 1) * 2^q
+        let Some((a, b)) = dyadic_decimal(2 * m + 1, q - 1) else { continue };
+        let zeros = "0".repeat(rng.range(0, 14) as usize);
+        let class: &'static str = if double { "fraction.half.double" } else { "fraction.half.single" };
+        // the type the midpoint belongs to, and the other one (a SINGLE midpoint is exact as a DOUBLE;
+        // a DOUBLE midpoint read as a SINGLE is an ordinary long decimal)
+        for pound in [double, !double] {
+            let neg = rng.chance(1, 3);
+            out.push(FracCase { neg, int_digits: a.clone(), frac_digits: b.clone(), pound, class });
+            out.push(FracCase { neg, int_digits: a.clone(), frac_digits: format!("{}{}1", b, zeros), pound, class });
+            // just below: the last non-zero position lowered by one unit of a further digit
+            let joined = format!("{}{}", a, b);
+            let Some(below) = joined.parse::<u128>().ok().and_then(|v| v.checked_mul(10)).map(|v| v - 1) else { continue };
+            let s = format!("{:0>width$}", below.to_string(), width = b.len() + 2);
+            let (ba, bb) = s.split_at(s.len() - (b.len() + 1));
+            out.push(FracCase { neg, int_digits: ba.to_owned(), frac_digits: format!("{}{}", bb, "9".repeat(zeros.len())), pound, class });
+        }
+    }
+    // (3) dyadic rationals that fit: exact
+    let n_exact = if thorough { 20_000 } else { 2_000 };
+    for i in 0..n_exact {
+        let bits = if i % 2 == 0 { rng.range(1, 24) } else { rng.range(25, 53) } as u32;
+        let m = (rng.next_u64() as u128) & ((1u128 << bits) - 1);
+        let q = rng.range(-30, 40) as i32;
+        let Some((a, b)) = dyadic_decimal(m, q) else { continue };
+        let lead = "0".repeat(rng.range(0, 2) as usize);
+        let trail = "0".repeat(rng.range(0, 3) as usize);
+        push(&mut out, rng, format!("{}{}", lead, a), format!("{}{}", b, trail), "fraction.dyadic", true);
+    }
+    // (4) no integer digits, zeros only, very small and very large magnitudes (subnormal range of SINGLE,
+    // the overflow threshold of SINGLE: `340282356779733661637539395458142568448` is the first decimal that is inf)
+    for (a, b) in [
+        ("", "0"),
+        ("0", "0"),
+        ("000", "000"),
+        ("", "5"),
+        ("", "25"),
+        ("1", "5"),
+        ("3", "14159"),
+        ("3", "141592653589793"),
+        ("16777217", "0"),
+        ("16777219", "0"),
+        ("9007199254740993", "0"),
+        ("0", "500000029802322387695312"),
+        ("0", "5000000298023223876953125"),
+        ("0", "50000002980232238769531250000000000001"),
+        ("240611193", "875"),
+        ("340282346638528859811704183484516925440", "0"),
+        ("340282356779733661637539395458142568447", "9"),
+        ("340282356779733661637539395458142568448", "0"),
+        ("340282366920938463463374607431768211456", "0"),
+        ("", "00000000000000000000000000000000000001"),
+        ("", "0000000000000000000000000000000000000117549435"),
+        ("", "000000000000000000000000000000000000000000001"),
+        ("", "0000000000000000000000000000000000000000000007"),
+        ("", "0000000000000000000000000000000000000000000000001"),
+    ] {
+        for pound in [false, true] {
+            for neg in [false, true] {
+                out.push(FracCase { neg, int_digits: a.to_owned(), frac_digits: b.to_owned(), pound, class: "fraction.fixed" });
+            }
+        }
+    }
+    out
+}
+
 // ---------------------------------------------------------------------------------------------
 
 struct ShapeCase {
@@ -537,7 +731,10 @@ fn main() {
          value level: the same expressions over INTEGER variables, printed value vs evaluation of the reference tree \
          (class = program text; trivial if the reference value is undefined: overflow, MOD 0, `/`). \
          literals: every 16-bit value in decimal, &H, &O, plain / leading zeros / negated, boundary and random \
-         32-bit and wider values (class = literal text; 0 is trivial).",
+         32-bit and wider values (class = literal text; 0 is trivial); literals with a fraction: random digit strings of \
+         1..25 digits with the point at every position, decimals exactly halfway between adjacent SINGLEs / DOUBLEs and \
+         their neighbours, dyadic rationals, leading / trailing zeros, with and without `#`, after a minus sign \
+         (class = literal text; zero is trivial).",
     );
     let thorough = rep.is_thorough();
     let t0 = std::time::Instant::now();
@@ -869,7 +1066,62 @@ fn main() {
             });
         }
     }
-    // fractions: SINGLE without suffix, DOUBLE with '#'; the value is Rust's correctly rounded parse
+    // fractions: SINGLE without suffix, DOUBLE with '#'; the value is the exact decimal rounded to nearest-even
+    // (RbModel.FloatLit.fracLit / negFracLit, proved in Thm.C10Float), compared bit for bit; Rust's own
+    // `str::parse` of the same text decides which side a disagreement belongs to
+    {
+        let fcs = frac_cases(&mut rng, thorough);
+        let reqs: Vec<String> = fcs.iter().map(|c| c.request()).collect();
+        let answers = ask(&reqs);
+        let texts: Vec<String> = fcs.iter().map(|c| c.text()).collect();
+        let parsed = batch_expressions(&texts);
+        let mut inf_seen = 0u64;
+        for ((c, model), real) in fcs.iter().zip(answers.iter()).zip(parsed.iter()) {
+            let text = c.text();
+            let trivial = c.int_digits.trim_start_matches('0').is_empty() && c.frac_digits.trim_start_matches('0').is_empty();
+            rep.case(if trivial { None } else { Some(text.clone()) });
+            rep.bump(&format!("literal.{}", c.class));
+            rep.bump(if c.pound { "literal.fraction.type.double" } else { "literal.fraction.type.single" });
+            if c.neg {
+                rep.bump("literal.fraction.negated");
+            }
+            let got = frac_lit_string(real);
+            let unsigned = format!("{}.{}", if c.int_digits.is_empty() { "0" } else { &c.int_digits }, c.frac_digits);
+            let std = if c.pound {
+                unsigned.parse::<f64>().map(|f| f64_string(if c.neg { -f } else { f })).unwrap_or_else(|e| format!("error {:?}", e))
+            } else {
+                unsigned.parse::<f32>().map(|f| f32_string(if c.neg { -f } else { f })).unwrap_or_else(|e| format!("error {:?}", e))
+            };
+            if model.ends_with("inf)") {
+                inf_seen += 1;
+            }
+            if std != *model {
+                rep.fail(Failure {
+                    kind: Kind::ModelVsImpl,
+                    signature: "model:literal:fraction".into(),
+                    input: format!("{}  {}", text, c.request()),
+                    implementation: std.clone(),
+                    expected: model.clone(),
+                    note: "RbModel.FloatLit.fracLit / negFracLit vs Rust's str::parse::<f32/f64> of the same text".into(),
+                });
+            }
+            if got != *model {
+                rep.fail(Failure {
+                    kind: if std == *model { Kind::ImplVsProperty } else { Kind::ModelVsImpl },
+                    signature: format!("literal:{}", c.class),
+                    input: format!("PRINT {}", text),
+                    implementation: got,
+                    expected: model.clone(),
+                    note: "digits with a fraction: SINGLE, or DOUBLE with #; value = the decimal rounded to nearest-even \
+                           (sign m e: magnitude m * 2^e)"
+                        .into(),
+                });
+            }
+        }
+        rep.bump_by("literal.fraction.inf-literal-observed", inf_seen);
+        rep.sample(J::s(format!("{} -> {}", fcs[fcs.len() / 2].text(), answers[fcs.len() / 2])));
+    }
+    // fixed texts: the printed form of the literal, and the paths around `--` / `-&H`
     for (text, want) in [
         ("1.5", "(single 1.5)"),
         (".25", "(single 0.25)"),
